@@ -10,3 +10,4 @@ import BS.Properties.C14
 #print axioms BS.Cluster.clamp_exclusive
 #print axioms BS.Cluster.machprocs_pos
 #print axioms BS.Cluster.start_bounded
+#print axioms BS.Cluster.idle_means_zero
